@@ -851,7 +851,12 @@ class Run:
         raise Unsupported("except clause with non-class")
 
     def x_For(self, s, env):
-        it = self.iterate(self.eval(s.iter, env))
+        src = self.eval(s.iter, env)
+        if isinstance(src, VNative) and src.obj is sys.stdin and "stdin_iter" in self.ghost:
+            src = self.ghost["stdin_iter"]
+        if isinstance(src, (VSymIter, VSymList)):
+            return self.for_with_invariant(s, env, src)
+        it = self.iterate(src)
         n = 0
         broke = False
         for item in it:
@@ -868,6 +873,33 @@ class Run:
                 continue
         if not broke:
             self.exec_block(s.orelse, env)
+
+    def for_with_invariant(self, s, env, src):
+        """`for` over a sequence of unknown length: inductive scheme with the invariant supplied by the contract
+        (run.ghost['loop_inv'], keyed by the line of the loop, or the single entry under key None).
+        inv: holds(run, env) -> z3 Bool ; havoc(run, env) assigns arbitrary values satisfying the invariant to the
+        variables the body modifies ; step(run, env) is called after the element is bound (ghost bookkeeping)."""
+        invs = self.ghost.get("loop_inv") or {}
+        inv = invs.get(s.lineno, invs.get(None))
+        if inv is None:
+            raise Unsupported("loop over a sequence of unknown length without an invariant")
+        if s.orelse:
+            raise Unsupported("for/else over a symbolic sequence")
+        self.check(inv.holds(self, env), f"loop invariant holds on entry (line {s.lineno})")
+        inv.havoc(self, env)
+        self.assign(s.target, src.next_elem(self), env)
+        if hasattr(inv, "step"):
+            inv.step(self, env)
+        try:
+            self.exec_block(s.body, env)
+        except _Break:
+            raise Unsupported("break inside a loop over a symbolic sequence")
+        except _Continue:
+            pass
+        self.check(inv.holds(self, env), f"loop invariant preserved by an arbitrary iteration (line {s.lineno})")
+        inv.havoc(self, env)
+        if hasattr(inv, "done"):
+            inv.done(self, env)
 
     def x_While(self, s, env):
         n = 0
